@@ -544,7 +544,7 @@ def build_faces(c: Case, desc, ctx):
 
 
 def execute_faces(desc, ctx):
-    with Case(desc, ctx, ['FACES', 'ORIGINALFACES', 'FACES_HDR', 'FACEIDS', 'SURFEDGES', 'EDGES', 'PRIMITIVES']) as c:
+    with Case(desc, ctx, ['FACES', 'FACEIDS', 'EDGES']) as c:
         bsp = c.bsp
         origs, faces, hdr = build_faces(c, desc, ctx)
         ctx.nontrivial(len(faces) >= 2)
@@ -636,7 +636,7 @@ def strat_tree(tier):
 def execute_tree(desc, ctx):
     from srctools.bsp import VisLeaf, VisTree, VisLeafFlags, BrushContents
     import attrs
-    with Case(desc, ctx, ['NODES', 'LEAFS', 'LEAFFACES', 'LEAFBRUSHES', 'LEAFMINDISTTOWATER']) as c:
+    with Case(desc, ctx, ['NODES', 'LEAFS', 'LEAFMINDISTTOWATER']) as c:
         bsp = c.bsp
         planes = plane_pool(bsp, desc['planes'])
         faces = list(bsp.faces)
@@ -693,10 +693,11 @@ def execute_tree(desc, ctx):
             ctx.label('unlisted_leaf')
         ctx.nontrivial(len(nodes) >= 2)
         want = G.canon([listed_leafs, listed_nodes], by_value=('Face', 'Primitive'))
+        n_leafs, n_nodes = len(listed_leafs), len(listed_nodes)     # the writer appends unlisted children to these lists
         bsp.visleafs = listed_leafs
         bsp.nodes = listed_nodes
         b2 = c.reread()
-        got = [list(b2.visleafs)[:len(listed_leafs)], list(b2.nodes)[:len(listed_nodes)]]
+        got = [list(b2.visleafs)[:n_leafs], list(b2.nodes)[:n_nodes]]
         c.expect_equal('roundtrip:tree', want, G.canon(got, by_value=('Face', 'Primitive')), float_bounds=use_float)
 
 
@@ -880,12 +881,12 @@ def _prop_dropped(ver: str) -> set:
 
 
 def strat_props(tier):
-    def per_layout(layout):
+    def per_version(ver):
+        layouts = [n for n in G.MAIN_LAYOUTS if ver in G.sprp_versions_for(n)]
         return st.fixed_dictionaries({
-            'layout': st.just(layout), 'lzma': LZ, 'ver': st.sampled_from(G.sprp_versions_for(layout)),
-            'props': st.lists(PROP, max_size=4),
+            'layout': st.sampled_from(layouts), 'lzma': LZ, 'ver': st.just(ver), 'props': st.lists(PROP, max_size=4),
         })
-    return LAYOUT.flatmap(per_layout)
+    return st.sampled_from(sorted(G.SPRP_VERSIONS)).flatmap(per_version)
 
 
 def execute_props(desc, ctx):
@@ -1282,7 +1283,8 @@ _LAYOUTS_NOVIT = tuple(x for x in _LAYOUTS if x != 'layout:v43')
 
 
 def S(name, execute, strategy, quick, thorough, floor=20, must=(), layouts=_LAYOUTS):
-    return Sub(name, execute, strategy=strategy, quick=quick, thorough=thorough, quick_shards=2, thorough_shards=16,
+    return Sub(name, execute, strategy=strategy, quick=quick, thorough=thorough, quick_shards=4 if quick >= 400 else 2,
+               thorough_shards=16,
                floor=floor, must_hit=tuple(layouts) + tuple(must))
 
 
